@@ -55,6 +55,7 @@ def _attach(model, mon_spec, objective_width=None):
         o = mon_spec["budget"] or {}
         mons["budget"] = MON.StepBudget(hub, model, scale=o.get("scale", 1), use_lines=o.get("lines", True),
                                         objective_width=objective_width)
+        mons["budget"].cut_after_passes = o.get("cut_after_passes")
     if "calls" in mon_spec:
         o = mon_spec["calls"] or {}
         mons["calls"] = MON.CallJudge(hub, M.NAME_OF, hull_limit=o.get("hull_limit", 2000),
